@@ -358,7 +358,9 @@ func genCV(cfg *config, r *rng, i int, s *sink) string {
 	op := "conv"
 	if cfg.prop == "C12" || (cfg.prop == "" && r.chance(1, 3)) {
 		op = "shift"
-		switch r.intn(4) {
+		switch r.intn(5) {
+		case 4: // the epoch day and days before it are start dates like any other
+			sd = fmt.Sprint(pick(r, []int64{0, 0, -86400, -14256000, -31536000, -86400 * 3000}))
 		case 0: // the logged day itself
 			sd = fmt.Sprint(base - base%86400)
 		case 1: // day after
